@@ -63,6 +63,10 @@ var mutatorCalls = map[string]string{"newChild": "Casper.tree", "Increase": "Cas
 // method calls on a shared field's value that mutate it (x.<field>.<method>(...))
 var mutatingMethods = map[string]bool{"Add": true, "Remove": true, "Purge": true}
 
+// per field: further methods that mutate.  TxPool.errCache is a groupcache lru.Cache, which has no
+// lock of its own and whose Get moves the entry to the front of its recency list: a write.
+var fieldMutatingMethods = map[string]map[string]bool{"TxPool.errCache": {"Get": true, "RemoveOldest": true, "Clear": true}}
+
 // in package casper, assignments to these fields of a checkpoint / tree node write the tree
 var treeFieldWrites = map[string]bool{"Status": true, "Parent": true, "children": true}
 
@@ -790,7 +794,7 @@ func (b *builder) callEffects(sc *scope, call *ast.CallExpr, out *[]effect) {
 		}
 		// receiver expression effects; a mutating method on a shared field writes it
 		recvWrite := false
-		if isTracked(sharedFields, b.canon(sc, sel.X)) && mutatingMethods[name] {
+		if isTracked(sharedFields, b.canon(sc, sel.X)) && (mutatingMethods[name] || fieldMutatingMethods[b.canon(sc, sel.X)][name]) {
 			recvWrite = true
 		}
 		if b.chanIdent(sc, call) == "" { // not a channel getter
